@@ -229,7 +229,9 @@ for k in ["fixed32", "fixed4096", "fixed_max", "multipart"]:
 M_TABLE.harnesses.append(H("canary_u9_value", "U9", kind="canary"))
 M_LOG = KModule("log", "src/log.rs", "verif_log", "log.rs")
 M_TABLE.deps = (M_LOG,)
-M_LOG.harnesses.append(H("u32_log_file_synced_before_it_becomes_readable", "U32", kind="bounded", shape="Log::flush_one on a log with an empty write buffer; sizes, id and sync option arbitrary", bound="sync succeeds (the failing-sync path drops a File, which needs close(2): not modelled)"))
+M_LOG.harnesses.append(H("u32_log_file_synced_before_it_becomes_readable", "U32", kind="bounded", shape="Log::flush_one on a log with an empty write buffer; sizes, id and sync option arbitrary", bound="one log file; close(2) of a dropped File replaced by a recorder"))
+M_LOG.harnesses.append(H("u46_read_next_reports_io_errors", "U46", kind="bounded", shape="Log::read_next with an active log file; outcome of reading the record header scripted (record, stray action, end of file, two kinds of I/O error, corruption)", bound="LogReader::next by contract; the branch that activates the next queued file (rewind) is not exercised"))
+M_LOG.harnesses.append(H("u47_kill_logs_keeps_unapplied_log_files", "U47", kind="bounded", shape="Log::kill_logs with one log file waiting in the read queue, optionally one pool file and one fully read file", bound="at most one pool file, one active reader, one queued file; close(2) replaced by a recorder"))
 # (u26_* exist in the contract file but std HashMap (hashbrown) insertion does not finish symbolic execution within budget; not registered)
 for n in []:
     M_LOG.harnesses.append(H(n, "U26", shape="LogWriter::insert_%s called three times on two chunks of one table; slots, record id and contents arbitrary" % ("ref_count" if "ref" in n else "index")))
@@ -779,3 +781,12 @@ PROPS["C01"]["claim"] = PROPS["C01"]["claim"].replace("(record assembly, Verus)"
 PROPS["C01"]["does_not_cover"] = [x for x in PROPS["C01"]["does_not_cover"] if "order of end_record and clean_overlay" not in x] + ["Log::end_record publishing the record into the log overlay (hash-map iteration by value)"]
 PROPS["C16"]["technique"] = PROPS["C16"]["technique"] + "; Verus contract on the apply step of process_commits (fragment extracted on every run)"
 PROPS["C16"]["does_not_cover"] = ["which operations fail and that each failure is propagated to store_err (error paths through `?`)", "reads after a failure other than of the apply step of process_commits", "state after reopen (prefix of commits)", "no panic on I/O errors"]
+
+# ---------------------------------------------------------------- U46 / U47 (Kani on a real Log)
+UNIT_META["U46"] = {"functions": ["log::Log::read_next"], "assumes": ["LogReader::next (reading and checksumming a record header from the file) replaced by its contract with a scripted outcome", "the active log file is a handle never used for I/O"]}
+UNIT_META["U47"] = {"functions": ["log::Log::kill_logs"], "assumes": ["Log::drop_log (remove_file) replaced by a recorder", "closing a File (close(2), foreign) replaced by a recorder"]}
+PROPS["C16"]["kani_units"] = list(PROPS["C16"]["kani_units"]) + ["U46"]
+PROPS["C03"]["kani_units"] = list(PROPS["C03"]["kani_units"]) + ["U47"]
+PROPS["C13"]["kani_units"] = list(PROPS["C13"]["kani_units"]) + ["U46"]
+PROPS["C16"]["claim"] = PROPS["C16"]["claim"] + " Log::read_next (Kani, bounded; LogReader::next by contract) reports every failure to read a record header except a clean end of file, and never hands a log file that failed to read to the cleanup stage (which would truncate records that were not applied)."
+PROPS["C03"]["claim"] = PROPS["C03"]["claim"] + " Log::kill_logs (Kani, bounded) deletes no log file that is still waiting to be applied: the read queue is left on disk for replay at the next open."
